@@ -29,6 +29,11 @@ static long case_index = 0;
 static char line[70000];
 static char cur[70000];
 
+/* the line of the current case is assembled here and printed when the case is complete */
+static char ob[200000];
+static size_t on = 0;
+#define OUT(...) (on += (size_t)snprintf(ob + on, sizeof(ob) - on, __VA_ARGS__))
+
 static void on_segv(int sig)
 {
     char msg[256];
@@ -68,15 +73,15 @@ static size_t unhex(char const *h, unsigned char *out)
 static void hex(unsigned char const *p, size_t n)
 {
     size_t i;
-    if (!n) { putchar('-'); }
-    for (i = 0; i < n; ++i) { printf("%02X", p[i]); }
+    if (!n) { OUT("-"); }
+    for (i = 0; i < n; ++i) { OUT("%02X", p[i]); }
 }
 
 #define SENT 0xFFFFFFFFu
 static void pval(a_u32 v)
 {
-    if (v == SENT) { printf("-"); }
-    else { printf("%lu", (unsigned long)v); }
+    if (v == SENT) { OUT("-"); }
+    else { OUT("%lu", (unsigned long)v); }
 }
 
 static unsigned char tmp[NPAGES * PAGE];
@@ -100,6 +105,8 @@ int main(void)
         while (ll && (line[ll - 1] == '\n' || line[ll - 1] == '\r')) { line[--ll] = 0; }
         if (!ll) { continue; }
         strcpy(cur, line);
+        on = 0;
+        ob[0] = 0;
         op = line[0];
         if (op == 'E')
         {
@@ -109,13 +116,13 @@ int main(void)
             unsigned int n;
             memset(p, 0x00, n0);
             n = a_utf_encode((a_u32)v, p);
-            printf("E %u %u ", n0, n);
+            OUT("E %u %u ", n0, n);
             hex(p, n0);
             memset(p, 0xFF, n0);
             n = a_utf_encode((a_u32)v, p);
-            printf(" ");
+            OUT(" ");
             hex(p, n0);
-            printf("\n");
+            OUT("\n");
         }
         else if (op == 'R')
         {
@@ -128,7 +135,7 @@ int main(void)
             n = a_utf_encode((a_u32)v, s6);
             if (n > 6) { n = 6; }
             memcpy(enc, s6, n);
-            printf("R %u ", n);
+            OUT("R %u ", n);
             hex(enc, n);
             {
                 unsigned char *p = flush_buf(n);
@@ -136,9 +143,9 @@ int main(void)
                 val = SENT;
                 r = a_utf_decode(p, n, &val);
                 rn = a_utf_decode(p, n, NULL);
-                printf(" %u ", r);
+                OUT(" %u ", r);
                 pval(val);
-                printf(" %u |", rn);
+                OUT(" %u |", rn);
             }
             for (k = 0; k < n; ++k)
             {
@@ -146,7 +153,7 @@ int main(void)
                 memcpy(p, enc, k);
                 val = SENT;
                 r = a_utf_decode(p, k, &val);
-                printf(" %u ", r);
+                OUT(" %u ", r);
                 pval(val);
             }
             {
@@ -155,10 +162,10 @@ int main(void)
                 p[n] = 0xBF;
                 val = SENT;
                 r = a_utf_decode(p, n + 1, &val);
-                printf(" | %u ", r);
+                OUT(" | %u ", r);
                 pval(val);
             }
-            printf("\n");
+            OUT("\n");
         }
         else if (op == 'D')
         {
@@ -179,9 +186,9 @@ int main(void)
             p = flush_buf(n);
             memcpy(p, tmp, n);
             r = a_utf_decode(p, (a_size)num, want ? &val : NULL);
-            printf("D %u ", r);
+            OUT("D %u ", r);
             pval(val);
-            printf("\n");
+            OUT("\n");
         }
         else if (op == 'L')
         {
@@ -197,22 +204,25 @@ int main(void)
             len1 = a_utf_length(p, (a_size)num, &stop);
             len2 = a_utf_length(p, (a_size)num, NULL);
             len3 = a_utf_length_(p, (a_size)num);
-            printf("L %lu %lu %lu %lu |", (unsigned long)len1, (unsigned long)stop, (unsigned long)len2, (unsigned long)len3);
+            OUT("L %lu %lu %lu %lu |", (unsigned long)len1, (unsigned long)stop, (unsigned long)len2, (unsigned long)len3);
             /* the chain of lengths the decoder itself reports (driver-side loop) */
             pos = 0;
             for (;;)
             {
                 unsigned int r = a_utf_decode(p + pos, (a_size)(num - pos), NULL);
-                printf(" %u", r);
+                OUT(" %u", r);
                 if (!r || r > num - pos) { break; }
                 pos += r;
             }
-            printf("\n");
+            OUT("\n");
         }
         else
         {
-            printf("? %s\n", line);
+            OUT("? %s\n", line);
         }
+        fputs(ob, stdout);
+        on = 0;
+        ob[0] = 0;
         ++case_index;
     }
     fflush(stdout);
